@@ -1,19 +1,19 @@
-"""C11 configuration, known-finding predicates, model search, shrinking (history -> one self-contained `hist` line)."""
+"""C11 configuration, model search, shrinking (history -> one self-contained `hist` line)."""
 import os
-from props import predicate, kv
 
 THEOREMS = ["store_types_lawful", "union_view", "partial_union_view", "dataset_graph_view", "dataset_graph_absent",
             "view_query", "view_contains", "graph_as_dataset_view", "union_enum_spo", "union_enum_atoms",
             "union_enum_atoms_defect", "union_enum_verdict", "view_insert", "view_insert_flag", "view_remove",
             "view_remove_flag", "as_dataset_mut_insert", "as_dataset_mut_insert_flag", "as_dataset_mut_remove",
             "as_dataset_mut_remove_defect", "as_dataset_mut_remove_refuted", "as_dataset_mut_remove_verdict",
-            "run_coherent", "forwarding_flags_now"]
+            "run_coherent", "forwarding_flags_now", "as_dataset_mut_remove_now", "union_enum_now",
+            "union_enum_coherent_now", "run_coherent_now"]
 
 CONFIG = {
     "design_ref": "4.11",
     "technique": "Lean 4 proof: the adapters of api/src/{graph,dataset}/adapter.rs transcribed as forwarding to the methods of ANY wrapped dataset/graph implementation, theorems for every lawful implementation, instantiated by C01's refinement for the indexed stores (every Good = reachable state) and directly for std sets/vectors; which underlying method each mutating adapter method calls is regenerated from the source (fail-closed shape check of every adapter body); differential over interleaved direct/view histories on all 14 shipped store types",
-    "level_text": "Proof (all states of every lawful store implementation, all graph names and matchers, unbounded histories): union_graph() shows exactly the image of the quads as a MULTISET (a triple in two graphs shows twice); partial_union_graph(m) and graph(g)/graph_mut(g) show exactly the triples of the quads whose graph name m matches / equals g (nothing for an absent name), also in triples(); pattern queries and contains through each view equal filtering / membership of the view; as_dataset() shows exactly the graph's triples in the default graph, answers pattern queries as filters, contains as membership (never for a named graph), has no graph names; insert/remove through graph_mut(g) have the state, result and flag of the dataset's insert/remove(s,p,o,g), leave every quad with another graph name and every other graph view untouched; insert through as_dataset_mut() refuses named graphs without change and is the graph's insert otherwise; histories mixing direct and view mutations refine C01's plain-set specification (run_coherent). The theorems are stated over flags REGENERATED from adapter.rs on every run (which underlying method DatasetGraph::insert/remove and GraphAsDataset::insert/remove call; whether UnionGraph forwards the atom enumerations); for the two flags that are wrong in the shipped text the conditional theorem is accompanied by a kernel-checked witness of the negation and a verdict theorem that re-decides which side holds. The tie of the model to the Rust code is differential (interleaved histories on every store type, 3-way: implementation / adapter model / plain-list specification, plus a Rust-side oracle recomputed from the underlying store's quads() before each operation) and the extractor's fail-closed check that every adapter body has the transcribed shape.",
-    "level_note": "Trusted: tools/extractors/c11.py (text-shape check of each adapter body); `&T`/`&mut T` forwarding impls (shape-checked for insert/remove, otherwise observed by the differential); std collections modelled as lists (C02 laws); C01's model of the indexed stores (tied by C01's own differential). Enumerations through PartialUnionGraph/DatasetGraph/GraphAsDataset other than graph_names are images of the view by definition and only compared by the differential; quoted_triples through borrowed views is not exercised on the Rust side (HRTB limitation) except for UnionGraph. No native_decide. Known findings: GraphAsDataset::remove calls insert; UnionGraph's iris()/blank_nodes()/literals()/quoted_triples()/variables() also enumerate graph names.",
+    "level_text": "Proof (all states of every lawful store implementation, all graph names and matchers, unbounded histories): union_graph() shows exactly the image of the quads as a MULTISET (a triple in two graphs shows twice); partial_union_graph(m) and graph(g)/graph_mut(g) show exactly the triples of the quads whose graph name m matches / equals g (nothing for an absent name), also in triples(); pattern queries and contains through each view equal filtering / membership of the view; as_dataset() shows exactly the graph's triples in the default graph, answers pattern queries as filters, contains as membership (never for a named graph), has no graph names; insert/remove through graph_mut(g) have the state, result and flag of the dataset's insert/remove(s,p,o,g), leave every quad with another graph name and every other graph view untouched; insert through as_dataset_mut() refuses named graphs without change and is the graph's insert otherwise; histories mixing direct and view mutations refine C01's plain-set specification (run_coherent). removal through as_dataset_mut() removes exactly the triple with the right flag (as_dataset_mut_remove_now) and every enumeration of union_graph() is that of its own triples (union_enum_now). The theorems are stated over flags REGENERATED from adapter.rs on every run (which underlying method DatasetGraph::insert/remove and GraphAsDataset::insert/remove call; whether UnionGraph forwards the atom enumerations); forwarding_flags_now decides that the current source has the good values and the *_now theorems are unconditional for it; the conditional forms, kernel-checked witnesses of the two repaired defects (under the old flag values) and verdict theorems are kept, so a regression breaks a proof and is located by the differential. The tie of the model to the Rust code is differential (interleaved histories on every store type, 3-way: implementation / adapter model / plain-list specification, plus a Rust-side oracle recomputed from the underlying store's quads() before each operation) and the extractor's fail-closed check that every adapter body has the transcribed shape.",
+    "level_note": "Trusted: tools/extractors/c11.py (text-shape check of each adapter body); `&T`/`&mut T` forwarding impls (shape-checked for insert/remove, otherwise observed by the differential); std collections modelled as lists (C02 laws); C01's model of the indexed stores (tied by C01's own differential). Enumerations through PartialUnionGraph/DatasetGraph/GraphAsDataset other than graph_names are images of the view by definition and only compared by the differential; quoted_triples through borrowed views is not exercised on the Rust side (HRTB limitation) except for UnionGraph. No native_decide. Two defects found by this check are fixed in /repo (12da6cd, f7b1ae1); their minimal histories stay in corpus/C11/known.req and no known-finding predicate remains.",
     "tables": ["index_tables", "adapter_flags"],
     "lean_targets": ["SophiaProofs.Props.C11", "SophiaProofs.Audit.C11"],
     "theorems": THEOREMS,
@@ -27,48 +27,7 @@ CONFIG = {
 }
 
 
-def _last_op(req):
-    toks = req.split()
-    if toks and toks[0] == "hist":
-        ops, cur = [], []
-        for t in toks[1:]:
-            if t == ";":
-                ops.append(cur)
-                cur = []
-            else:
-                cur.append(t)
-        ops.append(cur)
-        ops = [o for o in ops if o]
-        return ops[-1] if ops else []
-    return toks
-
-
-@predicate
-def c11_gad_remove(failure):
-    """`GraphAsDataset::remove` (default-graph branch) calls the graph's `insert`: the triple is (still) there
-    afterwards and the flag is that of an insertion"""
-    op = _last_op(failure["request"])
-    if op[:3] != ["v", "asds", "rem"] or op[-1] != "-":
-        return False
-    if failure.get("field") not in ("r", "st", "FAIL.r", "FAIL.st"):
-        return False
-    return kv(failure["impl"]).get("st", "_") != "_"
-
-
-@predicate
-def c11_union_atoms(failure):
-    """`UnionGraph::{iris, blank_nodes, literals, quoted_triples, variables}` forward to the dataset's, which
-    also yield graph names: a superset of the terms of the union graph's triples"""
-    op = _last_op(failure["request"])
-    if len(op) != 4 or op[:3] != ["v", "union", "enum"] or op[3] not in ("iris", "bnodes", "literals", "vars", "qtriples"):
-        return False
-    if failure.get("field") != "terms":
-        return False
-    got = kv(failure["impl"]).get("terms", "_")
-    want = kv(failure["model"]).get("o.terms", "_")
-    g = set(got.split(";")) - {"_"}
-    w = set(want.split(";")) - {"_"}
-    return w < g
+# no known-finding predicates: both defects this check found are fixed in /repo (findings/C11.json `fixed`)
 
 
 # ------------------------------------------------------------------ model search
